@@ -1204,6 +1204,12 @@ func (c *Context) quantize(d, v *Decimal, exp int32) Condition {
 			}
 		} else {
 			nc := c.WithPrecision(uint32(p))
+			// Only the coefficient is rounded here, against a temporary
+			// exponent; the context's exponent range must not take part (with
+			// MinExponent 0 the temporary value 0.x would be treated as
+			// subnormal). Quantize checks the real exponent afterwards.
+			nc.MinExponent = MinExponent
+			nc.MaxExponent = MaxExponent
 
 			// The idea here is that the resulting d.Exponent after rounding will be 0. We
 			// have a number of, say, 5 digits, but p (our precision) above is set at, say,
